@@ -120,6 +120,34 @@ fn ss_losses(p: &PoolView, i: usize, j: usize, offer: u128, net: u128) -> Option
     Some((loss_peg, loss_lo, loss_hi, delta))
 }
 
+
+/// constant-product deposit with a tolerance: accepted <=> both deposit ratios, reduced by the
+/// tolerance, are within the PRE-deposit pool ratios (judged outside the fixed-point band)
+fn judge_cp_deposit(p: &PoolView, d0: u128, d1: u128, tol: &Decimal, accepted: bool, via: &str, rep: &mut Reporter) {
+    let pool = &p.info.pool_identifier;
+    let r = p.canon_reserves();
+    let one_minus = Q::int(1).sub(&Q::dec(tol.atomics().u128()));
+    let a = Q::ratio(d0, d1).mul(&one_minus);
+    let b = Q::ratio(d1, d0).mul(&one_minus);
+    let pa = Q::ratio(r[0], r[1]);
+    let pb = Q::ratio(r[1], r[0]);
+    let e = Q::new(BigInt::from(3), pow10(18)).add(&Q::new(BigInt::from(3), pow10(18)).mul(&one_minus));
+    let within = a.le(&pa.add(&e)) && b.le(&pb.add(&e));
+    let outside = a.gt(&pa.sub(&e)) || b.gt(&pb.sub(&e));
+    let boundary = (a.le(&pa.add(&e)) && a.ge(&pa.sub(&e))) || (b.le(&pb.add(&e)) && b.ge(&pb.sub(&e)));
+    let rel = (d0 as f64 / r[0].max(1) as f64).log10().round() as i32;
+    let abs = hash_of(&(via, pool, accepted, tol.atomics().u128() / 10u128.pow(16), rel, mag(d1)));
+    if boundary {
+        rep.boundary("deposit_tol_cp");
+    } else if accepted && !within {
+        rep.failed("deposit_tol_cp", None, format!("pool {pool} ({via}): deposit {d0}/{d1} vs pool {}/{} accepted outside tolerance {tol}", r[0], r[1]), witness(json!({"pool": pool, "deposit": [d0.to_string(), d1.to_string()], "reserves": [r[0].to_string(), r[1].to_string()], "tolerance": tol.to_string()})));
+    } else if !accepted && !outside {
+        rep.failed("deposit_tol_cp", None, format!("pool {pool} ({via}): deposit {d0}/{d1} vs pool {}/{} refused although within tolerance {tol}", r[0], r[1]), witness(json!({"pool": pool, "deposit": [d0.to_string(), d1.to_string()], "reserves": [r[0].to_string(), r[1].to_string()], "tolerance": tol.to_string()})));
+    } else {
+        rep.held("deposit_tol_cp", abs, || json!({"via": via, "pool": pool, "deposit": [d0.to_string(), d1.to_string()], "reserves": [r[0].to_string(), r[1].to_string()], "tolerance": tol.to_string(), "accepted": accepted}));
+    }
+}
+
 impl C13 {
     fn judge_direct_swap(&mut self, w: &mut World, s: &Step, rep: &mut Reporter) {
         let (sender, msg, funds) = match s.op {
@@ -367,26 +395,7 @@ impl C13 {
         if !accepted && !rejected_for_it {
             return;
         }
-        let r = p.canon_reserves();
-        let one_minus = Q::int(1).sub(&Q::dec(tol.atomics().u128()));
-        let a = Q::ratio(d0, d1).mul(&one_minus);
-        let b = Q::ratio(d1, d0).mul(&one_minus);
-        let pa = Q::ratio(r[0], r[1]);
-        let pb = Q::ratio(r[1], r[0]);
-        let e = Q::new(BigInt::from(3), pow10(18)).add(&Q::new(BigInt::from(3), pow10(18)).mul(&one_minus));
-        let within = a.le(&pa.add(&e)) && b.le(&pb.add(&e));
-        let outside = a.gt(&pa.sub(&e)) || b.gt(&pb.sub(&e));
-        let boundary = (a.le(&pa.add(&e)) && a.ge(&pa.sub(&e))) || (b.le(&pb.add(&e)) && b.ge(&pb.sub(&e)));
-        let abs = hash_of(&(pool, accepted, tol.atomics().u128() / 10u128.pow(16), mag(d0), mag(d1)));
-        if boundary {
-            rep.boundary("deposit_tol_cp");
-        } else if accepted && !within {
-            rep.failed("deposit_tol_cp", None, format!("pool {pool}: deposit {d0}/{d1} vs pool {}/{} accepted outside tolerance {tol}", r[0], r[1]), witness(json!({"pool": pool, "deposit": [d0.to_string(), d1.to_string()], "reserves": [r[0].to_string(), r[1].to_string()], "tolerance": tol.to_string()})));
-        } else if !accepted && !outside {
-            rep.failed("deposit_tol_cp", None, format!("pool {pool}: deposit {d0}/{d1} vs pool {}/{} refused although within tolerance {tol}", r[0], r[1]), witness(json!({"pool": pool, "deposit": [d0.to_string(), d1.to_string()], "reserves": [r[0].to_string(), r[1].to_string()], "tolerance": tol.to_string()})));
-        } else {
-            rep.held("deposit_tol_cp", abs, || json!({"pool": pool, "deposit": [d0.to_string(), d1.to_string()], "reserves": [r[0].to_string(), r[1].to_string()], "tolerance": tol.to_string(), "accepted": accepted}));
-        }
+        judge_cp_deposit(p, d0, d1, tol, accepted, "workload", rep);
     }
 
     /// forked probes: exact-proportion deposits under any tolerance; monotonicity in the tolerance
@@ -468,6 +477,27 @@ impl C13 {
                 }
             }
             rep.held("monotone", hash_of(&(&pid, i, j, mag(amt), all.iter().map(|a| a.1).collect::<Vec<_>>())), || json!({"pool": pid, "offer": amt.to_string(), "tolerance_bp_and_decision": all}));
+        }
+        // --- large off-ratio deposits on constant-product pools (the size of the deposit relative
+        // to the pool must not matter: the reference is the pool ratio BEFORE the deposit)
+        if p.is_cp() {
+            let r = p.canon_reserves();
+            if r[0] < 10u128.pow(30) && r[1] < 10u128.pow(30) {
+                for _ in 0..3 {
+                    let k = self.rng.gen_range(100u128..4000); // 0.1x .. 4x the pool, in permille
+                    let f = self.rng.gen_range(300u128..3000); // skew of the second asset, in permille
+                    let d0 = (r[0] / 1000 * k).max(1);
+                    let d1 = (r[1] / 1000 * k / 1000 * f).max(1);
+                    let tol = Decimal::permille(self.rng.gen_range(0..=1000));
+                    let funds = vec![coin(d0, p.info.asset_denoms[0].clone()), coin(d1, p.info.asset_denoms[1].clone())];
+                    let out = w.apply(&provide_op(&user, &pid, funds, Some(tol), None, None, None, None));
+                    w.restore(&snap);
+                    let m = out.err_msg().unwrap_or("");
+                    if out.is_ok() || m.contains("Slippage tolerance exceeded") {
+                        judge_cp_deposit(p, d0, d1, &tol, out.is_ok(), "forked large deposit", rep);
+                    }
+                }
+            }
         }
         // --- monotone for constant-product deposits
         if p.is_cp() {
